@@ -23,7 +23,7 @@ ASSUMPTIONS = [
     "tags that differ only in case / punctuation are one tag (the generator's documented normalisation, re-implemented as lower-cased alphanumerics)",
     "a document the generator rejects with an exception satisfies 'fails visibly'",
 ]
-BOUND = {"quick": "129 sets (<=3 ops) x 3 strategies + 4 sets x 15 tag patterns x 8 id patterns x 3 + renderings (with and without a default key) + 120 spelling pairs + ~560 single-shape documents (inline and component refs) + 3 route documents + shared path items + path-item $ref + 3-6 equal operationIds = 2989 documents", "thorough": "same + slice 2 over all 255 sets for 4 tag patterns x 3 id patterns"}
+BOUND = {"quick": "129 sets (<=3 ops) x 3 strategies + 4 sets x 15 tag patterns x 8 id patterns x 3 + renderings (with and without a default key) + 120 spelling pairs + ~560 single-shape documents (inline and component refs) + 3 route documents + shared path items + path-item $ref + 3-6 equal operationIds + status-range keys + strategy given by its string spelling = 3087 documents", "thorough": "same + slice 2 over all 255 sets for 4 tag patterns x 3 id patterns"}
 CHUNK = 4
 
 COMBOS = [(p, m) for p in ("/a", "/a/{id}", "/b") for m in ("get", "post", "delete")]
